@@ -2,8 +2,8 @@
    these definitions of /repo; tools/srcfacts.py regenerates their normal-form digests on every run (coq/Gen/Src_*.v).
    Statements only. *)
 From Coq Require Import List String.
-From ME Require Import Model.SrcExpected Gen.Src_common Gen.Src_map Gen.Src_flat_map Gen.Src_poll Gen.Src_retry Gen.Src_throttle Gen.Src_fbool Gen.Src_fzip
-  Proofs.Src_ok_common Proofs.Src_ok_map Proofs.Src_ok_flat_map Proofs.Src_ok_poll Proofs.Src_ok_retry Proofs.Src_ok_throttle Proofs.Src_ok_fbool Proofs.Src_ok_fzip.
+From ME Require Import Model.SrcExpected Gen.Src_common Gen.Src_map Gen.Src_flat_map Gen.Src_poll Gen.Src_retry Gen.Src_throttle Gen.Src_fbool Gen.Src_fzip Gen.Src_timeout Gen.Src_cos Gen.Src_helpers Gen.Src_fbase
+  Proofs.Src_ok_common Proofs.Src_ok_map Proofs.Src_ok_flat_map Proofs.Src_ok_poll Proofs.Src_ok_retry Proofs.Src_ok_throttle Proofs.Src_ok_fbool Proofs.Src_ok_fzip Proofs.Src_ok_timeout Proofs.Src_ok_cos Proofs.Src_ok_helpers Proofs.Src_ok_fbase.
 
 (* more_executors/_impl/common.py *)
 Theorem c18_source_common : Src_common.facts = expected_common.
@@ -29,6 +29,18 @@ Proof. exact src_fbool_ok. Qed.
 (* more_executors/_impl/futures/zip.py *)
 Theorem c18_source_fzip : Src_fzip.facts = expected_fzip.
 Proof. exact src_fzip_ok. Qed.
+(* more_executors/_impl/timeout.py *)
+Theorem c18_source_timeout : Src_timeout.facts = expected_timeout.
+Proof. exact src_timeout_ok. Qed.
+(* more_executors/_impl/cancel_on_shutdown.py *)
+Theorem c18_source_cos : Src_cos.facts = expected_cos.
+Proof. exact src_cos_ok. Qed.
+(* more_executors/_impl/helpers.py *)
+Theorem c18_source_helpers : Src_helpers.facts = expected_helpers.
+Proof. exact src_helpers_ok. Qed.
+(* more_executors/_impl/futures/base.py *)
+Theorem c18_source_fbase : Src_fbase.facts = expected_fbase.
+Proof. exact src_fbase_ok. Qed.
 
 Print Assumptions c18_source_common.
 Print Assumptions c18_source_map.
@@ -38,3 +50,7 @@ Print Assumptions c18_source_retry.
 Print Assumptions c18_source_throttle.
 Print Assumptions c18_source_fbool.
 Print Assumptions c18_source_fzip.
+Print Assumptions c18_source_timeout.
+Print Assumptions c18_source_cos.
+Print Assumptions c18_source_helpers.
+Print Assumptions c18_source_fbase.
